@@ -70,6 +70,7 @@ fn main() {
     core::install_panic_hook();
     let cfg = Config { property: property.clone(), tier, seed, shard, nshards, only, build, scale, verbose };
     let mut rep = Report::new(cfg);
+    rep.open_marker(out.as_deref());
     let ok = std::panic::catch_unwind(std::panic::AssertUnwindSafe(|| mon::dispatch(&property, &mut rep)));
     match ok {
         Ok(true) => {}
@@ -84,10 +85,14 @@ fn main() {
             std::process::exit(101);
         }
     }
+    rep.finish_cases();
     let js = rep.to_json();
     let text = serde_json::to_string(&js).expect("json");
     match out {
-        Some(p) => std::fs::write(&p, text).expect("write out"),
+        Some(p) => {
+            std::fs::write(&p, text).expect("write out");
+            let _ = std::fs::remove_file(format!("{p}.cur"));
+        }
         None => println!("{text}"),
     }
 }
